@@ -5,8 +5,10 @@ import random
 
 from noiseref.patterns import CIPHERS, DHS, HASHES, make_name, parse_name_simple
 
+from noiseref import model, prims
+
 from .. import core, sessions
-from ..script import Case, gen_bytes
+from ..script import Case, gen_bytes, script_rng_bytes
 from ..shadow import decode_out
 
 BIG = sessions.BIGBUF
@@ -44,7 +46,41 @@ class CheckC04(core.Check):
                             n = len(self._hostile(name, mode, plen, seed))
                             for ch in range(0, n, 60):
                                 descs.append((name, be[0], be[1], mode, plen, seed, ch))
+        # messages forged with knowledge of the session keys (the model derives them from the scripted ephemerals):
+        # over-long messages carrying a VALID tag - no peer write can produce them, they must still be refused
+        for ci in CIPHERS:
+            for mode in ("tr", "sl"):
+                descs.append(("forge", ci, mode, rnd.getrandbits(24)))
         return descs
+
+    def _build_forge(self, desc):
+        _, ci, mode, seed = desc
+        name = "Noise_NN_25519_%s_SHA256" % ci
+        parsed = parse_name_simple(name)
+        c = Case("forge-%s-%s-%d" % (ci, mode, seed), desc)
+        e_a = script_rng_bytes(str(seed), 0, 0, 32)
+        e_b = script_rng_bytes(str(seed + 7), 0, 0, 32)
+        ini = model.HandshakeState(name, True, parsed=parsed)
+        res = model.HandshakeState(name, False, parsed=parsed)
+        res.read_message(ini.write_message(b"", e_a))
+        ini.read_message(res.write_message(b"", e_b))
+        k_ir = ini.c_i.k
+        st = mode == "sl"
+        subs = []
+        for j, total in enumerate([65535, 65536, 65537, 65551, 65552]):
+            a, b = "A%d" % j, "B%d" % j
+            keys = sessions.Keys(parsed, seed)
+            sessions.add_pair(c, parsed, keys, rng=("script:%d" % seed, "script:%d" % (seed + 7)), rec=("-", "-"), ids=(a, b))
+            sessions.add_handshake(c, parsed, ["-", "-"], ids=(a, b), flags=("q",), prefix="h%d_" % j)
+            sessions.add_convert(c, ids=(a, b), stateless=st)
+            n = 0
+            msg = prims.aead_encrypt(ci, k_ir, n, b"", gen_bytes("forged%d" % j, total - 16))
+            kw = {"n": n} if st else {}
+            lr = c.op("st_read" if st else "t_read", b, msg="lit:" + msg.hex(), buf=BIG, flags=("q",), **kw)
+            subs.append((lr, total))
+        c.meta["forged"] = subs
+        c.info = {"name": name, "key": (ci, "D", "D", "interactive", mode)}
+        return c
 
     def _hostile(self, name, mode, plen, seed):
         rnd = random.Random(seed)
@@ -67,6 +103,8 @@ class CheckC04(core.Check):
         return out
 
     def build(self, desc):
+        if desc[0] == "forge":
+            return self._build_forge(desc)
         name, be0, be1, mode, plen, seed, ch = desc
         parsed = parse_name_simple(name)
         hostile = [("control", "")] + self._hostile(name, mode, plen, seed)[ch:ch + 60]
@@ -84,6 +122,13 @@ class CheckC04(core.Check):
             sessions.add_handshake(c, parsed, ["-"] * parsed.nmsgs, ids=(a, b), flags=("q",), prefix="h%d_" % j)
             sessions.add_convert(c, ids=(a, b), stateless=st)
             w, r = (a, b) if d == 0 else (b, a)
+            if rnd.random() < 0.25:
+                # both ends install fresh keys through the combined call (initiator key only, responder key only, or both);
+                # the two directions must stay distinct channels
+                ki, kr = gen_bytes("mi%d.%d" % (seed, j), 32).hex(), gen_bytes("mr%d.%d" % (seed, j), 32).hex()
+                which = rnd.choice(["i", "r", "b"])
+                for pid in (a, b):
+                    c.op("rekey_manual", pid, i=ki if which in "ib" else "-", r=kr if which in "rb" else "-")
             # a few earlier messages so that the counter is not 0
             pre = rnd.randrange(0, 3)
             n0 = pre
@@ -153,6 +198,31 @@ class CheckC04(core.Check):
             r.foreign_dev("C10", "driver died")
             return r
         by = {e.label: e for e in events}
+        if "forged" in case.meta:
+            ci, _, _, _, mode = case.info["key"]
+            sane = False
+            for lr, total in case.meta["forged"]:
+                e = by.get(str(lr))
+                if e is None or e.skipped:
+                    continue
+                if total <= 65535:
+                    # sanity of the forging itself: a legal-size message under the derived key must be accepted
+                    sane = e.ok
+                    r.stats["forged_legal_accepted" if e.ok else "forged_legal_rejected"] += 1
+                    continue
+                if not sane:
+                    r.inconclusive.append("forged legal-size message was not accepted: key derivation of the oracle does not match (%s)" % case.id)
+                    break
+                r.stats["hostile_deliveries"] += 1
+                r.stats["hostile_forged_overlong"] += 1
+                if e.ok:
+                    r.viol("C04|accepted|forged-overlong|%s" % mode, "%s %s: a %d-byte message with a valid tag (longer than any message a peer can write) was accepted: %s" % (ci, mode, total, e.res))
+                elif e.panic:
+                    r.viol("C04|panic|forged-overlong", "%s %s: read panicked on a forged %d-byte message" % (ci, mode, total))
+                else:
+                    r.nontrivial = True
+                    r.keys.add((ci, mode, "forged", total))
+            return r
         for j, lw, lr, kind, arg, plen in case.meta["subs"]:
             ew, er = by.get(str(lw)), by.get(str(lr))
             if ew is None or er is None or not ew.ok:
